@@ -494,11 +494,9 @@ def family(thorough):
         for states in itertools.product(STATES, repeat=4):
             for gc, kind, hdr in itertools.product((1, 0), ("exe", "shared"), (1, 0)):
                 fam.append((states, "default", gc, kind, hdr, 0))
-            for gc in (1, 0):
-                fam.append((states, "default", gc, "exe", 1, 1))
+            fam.append((states, "default", 0, "exe", 1, 1))
             for cie in ("personality", "signal"):
-                for gc in (1, 0):
-                    fam.append((states, cie, gc, "exe", 1, 0))
+                fam.append((states, cie, 1, "exe", 1, 0))
                 fam.append((states, cie, 1, "shared", 1, 0))
                 fam.append((states, cie, 0, "exe", 1, 1))
     else:
@@ -761,8 +759,8 @@ def main():
         "samples": samples,
         "exhaustive": True,
         "family": ("all 8^4 ordered slot states x {gc,nogc} x {exe,shared} x {hdr,no hdr} with the "
-                   "default CIE, + sections reversed x {gc,nogc} (exe,hdr); x {personality, signal} CIE "
-                   "shapes with (gc,exe,hdr) (nogc,exe,hdr) (gc,shared,hdr) (nogc,exe,hdr,reversed)") if chk.thorough else
+                   "default CIE, + (nogc,exe,hdr,sections reversed); x {personality, signal} CIE "
+                   "shapes with (gc,exe,hdr) (gc,shared,hdr) (nogc,exe,hdr,sections reversed)") if chk.thorough else
                   ("330 multisets of slot states (multiset number i assigned to the slots rotated by i mod 4), default CIE: "
                    "(gc,exe,hdr) (nogc,exe,hdr) (nogc,exe,hdr,sections reversed) (gc,shared,hdr) "
                    "(gc,exe,no hdr)"),
@@ -780,7 +778,8 @@ def main():
         "fate_deviations_from_design": deviations,
         "native_unwinder": unw,
         "phase_wall_s": phase,
-        "thinning": "none" if chk.thorough else
+        "thinning": "default CIE: none; personality/signal CIE shapes: 3 of the 16 flag combinations; "
+                    "GNU ld reference: every 16th member, at most 600" if chk.thorough else
                     "slot order reduced to multisets; kind/hdr/gc not fully crossed; default CIE only; "
                     "sweep = lexicographically first 50 of {R1,G1,C1}^4",
     }
